@@ -4,6 +4,7 @@ from shexer.utils.log import log_msg
 from shexer.core.instances.annotators.strategy_mode.instances_cap_exception import InstancesCapException
 from shexer.utils.factories.h_tree import get_basic_h_tree
 from shexer.core.instances.annotators.annotator_func import get_proper_annotator
+from shexer.utils import verif_trace
 
 
 
@@ -65,6 +66,8 @@ class InstanceTracker(AbstractInstanceTracker):
 
     def _yield_relevant_triples(self):
         for a_triple in self._triples_yielder.yield_triples():
+            if verif_trace.active():
+                verif_trace.emit("pass.triple", n_pass=1, triple=verif_trace.snapshot_triple(a_triple))
             if self._annotator.is_relevant_triple(a_triple):
                 self._relevant_triples += 1
                 yield a_triple
